@@ -19,8 +19,9 @@ def run(tier, seed):
                           dict(base, MaxDepth=DEPTH_B[0 if quick else 1]),
                           dict(base, MaxDepth=WALK), nsetup=ns, walk_len=ns + WALK,
                           nwalks=NWALKS[0 if quick else 1], seed=seed, clauses=CLAUSES,
-                          extra_B=[{"Scenario": '"c08b"', "MaxDepth": 3 if quick else 4},
-                                   {"Scenario": '"c08c"', "MaxDepth": 3 if quick else 4},
+                          # (depth 4 of c08b/c08c is 1.5 million behaviours: more than the replay can hold)
+                          extra_B=[{"Scenario": '"c08b"', "MaxDepth": 3},
+                                   {"Scenario": '"c08c"', "MaxDepth": 3},
                                    {"Scenario": '"c08d"', "MaxDepth": 3 if quick else 5}])
 
 
